@@ -2274,11 +2274,13 @@ class Protocol(utils.EventEmitter):
                 self.receive_command_state.transaction_label != transaction_label
                 or self.receive_command_state.command_type != command.ctype
             ):
-                # We're in the middle of some other PDU
+                # We're in the middle of some other PDU: abandon it and start over
+                # with this command.
                 logger.warning("received interleaved PDU, resetting state")
                 self.command_pdu_assembler.reset()
-                self.receive_command_state = None
-                return
+                self.receive_command_state = self.ReceiveCommandState(
+                    transaction_label=transaction_label, command_type=command.ctype
+                )
             else:
                 self.receive_command_state.command_type = command.ctype
                 self.receive_command_state.transaction_label = transaction_label
